@@ -31,11 +31,26 @@ func (e QuxLeaf) Error() string { return e.Msg }
 func (e BazLeaf) Error() string { return e.Msg }
 func (e ZedLeaf) Error() string { return e.Msg }
 
-type FooLeafP struct{ Msg string }
-type BarLeafP struct{ Msg string }
-type QuxLeafP struct{ Msg string }
-type BazLeafP struct{ Msg string }
-type ZedLeafP struct{ Msg string }
+type FooLeafP struct {
+	Msg  string
+	Code int
+}
+type BarLeafP struct {
+	Msg  string
+	Code int
+}
+type QuxLeafP struct {
+	Msg  string
+	Code int
+}
+type BazLeafP struct {
+	Msg  string
+	Code int
+}
+type ZedLeafP struct {
+	Msg  string
+	Code int
+}
 
 func (e *FooLeafP) Error() string { return e.Msg }
 func (e *BarLeafP) Error() string { return e.Msg }
@@ -70,10 +85,15 @@ func (e *QuxWrap) Error() string { return e.Msg + ": " + e.Cause.Error() }
 func (e *BazWrap) Error() string { return e.Msg + ": " + e.Cause.Error() }
 func (e *ZedWrap) Error() string { return e.Msg + ": " + e.Cause.Error() }
 func (e *FooWrap) Unwrap() error { return e.Cause }
+func (e *FooWrap) ErrorKeyMarker() string { return "mig-ext" }
 func (e *BarWrap) Unwrap() error { return e.Cause }
+func (e *BarWrap) ErrorKeyMarker() string { return "mig-ext" }
 func (e *QuxWrap) Unwrap() error { return e.Cause }
+func (e *QuxWrap) ErrorKeyMarker() string { return "mig-ext" }
 func (e *BazWrap) Unwrap() error { return e.Cause }
+func (e *BazWrap) ErrorKeyMarker() string { return "mig-ext" }
 func (e *ZedWrap) Unwrap() error { return e.Cause }
+func (e *ZedWrap) ErrorKeyMarker() string { return "mig-ext" }
 
 // Forms.
 const (
@@ -105,15 +125,15 @@ func MigNew(name, form int, msg string, cause error) error {
 	case FormPtr:
 		switch name {
 		case MigFoo:
-			return &FooLeafP{msg}
+			return &FooLeafP{msg, 7}
 		case MigBar:
-			return &BarLeafP{msg}
+			return &BarLeafP{msg, 7}
 		case MigQux:
-			return &QuxLeafP{msg}
+			return &QuxLeafP{msg, 7}
 		case MigBaz:
-			return &BazLeafP{msg}
+			return &BazLeafP{msg, 7}
 		default:
-			return &ZedLeafP{msg}
+			return &ZedLeafP{msg, 7}
 		}
 	default:
 		switch name {
@@ -149,3 +169,38 @@ const MigPkgPath = "errsim/gen"
 // MigBuildName is the name under which LMig/WMig nodes are built; the C17
 // scenario sets it to the current type name of the building code version.
 var MigBuildName = MigFoo
+
+// MigCode returns the Code field of a pointer-form leaf (-1 if e is none).
+func MigCode(e error) int {
+	switch x := e.(type) {
+	case *FooLeafP:
+		return x.Code
+	case *BarLeafP:
+		return x.Code
+	case *QuxLeafP:
+		return x.Code
+	case *BazLeafP:
+		return x.Code
+	case *ZedLeafP:
+		return x.Code
+	}
+	return -1
+}
+
+// MigNewP builds a pointer-form leaf with an explicit code.
+func MigNewP(name int, msg string, code int) error {
+	e := MigNew(name, FormPtr, msg, nil)
+	switch x := e.(type) {
+	case *FooLeafP:
+		x.Code = code
+	case *BarLeafP:
+		x.Code = code
+	case *QuxLeafP:
+		x.Code = code
+	case *BazLeafP:
+		x.Code = code
+	case *ZedLeafP:
+		x.Code = code
+	}
+	return e
+}
